@@ -5,7 +5,7 @@ import (
 	"go/constant"
 	"go/token"
 	"go/types"
-	"sort"
+	_ "sort"
 	"strings"
 
 	"golang.org/x/tools/go/ssa"
@@ -14,7 +14,7 @@ import (
 // R-COVER (C18): coverage annotation and profile writer.
 
 func init() {
-	register("R-COVER", "coverage: (PRESERVE) annotateStmts hands back its argument untouched when it is empty, so nil (no action: print the record) and empty ({}: do nothing) stay distinct; (NESTED) every statement type of package ast that holds a nested ast.Stmts field has a clause in annotateStmts that unconditionally replaces each such field by annotateStmts of that same field; (ONCE) each statement of the input is appended to the pending block exactly once, every counter statement is emitted immediately before the block it counts, the pending block is emptied after a flush inside the loop and flushed after the loop when non-empty; (COUNTER) the counter index is len(trackedBlocks) taken after the append and WriteProfile reads data[i+1] for the i-th block; count mode emits a post-increment (INCR) of the element, the other mode an assignment of the constant 1; (POS) a block's start is the first statement's StartPos and its end the last statement's endPos, both lines mapped through FileReader.FileLine, the path taken from the start's mapping; (LINES) FileReader.AddFile records as the file's line count the number of newline bytes in exactly the region it appended, and FileLine walks half-open ranges [start, start+lines) from 1; (FLAGS) WriteProfile opens an existing file with O_TRUNC unless append is set and with O_APPEND only then, creates a missing one, and writes the mode header unless it appends to an existing file; (RECOMPILE) main re-resolves and re-compiles the program after Annotate before it is run", ruleCover)
+	register("R-COVER", "coverage: (PRESERVE, NESTED, ONCE: decided by abstract execution of the statement-list annotator over sequence terms, helpers entered at their call sites) every path on which the input may be empty hands the input itself back, so nil (no action: print the record) and empty ({}: do nothing) stay distinct; on every path on which the element may be a statement type of package ast that holds a nested ast.Stmts field, that field is replaced exactly once by the annotation of itself and nothing else is stored into the statement; on every path through the loop body the accumulated result grows by counters each directly followed by exactly the (provably non-empty) block it counts, blocks emitted plus pending block equal old pending block plus this statement, both lists start empty and after the loop the pending block is flushed the same way; (LISTS) the list-level annotators keep every element and the tracked-block list is only appended to in one function, measured and ranged over; (COUNTER) the counter index is len(trackedBlocks) taken after the append and WriteProfile reads data[i+1] for the i-th block; the mode test evaluated for count mode yields a post-increment (INCR) of the element, for set mode an assignment of the constant 1; (POS) a block's start is the first statement's StartPos and its end the last statement's endPos, both lines mapped through FileReader.FileLine, the path taken from the start's mapping (expressions compared after substituting single-use helpers and parameters); (LINES) FileReader.AddFile records as the file's line count the number of newline bytes in exactly the region it appended; (FLAGS) every os.OpenFile of package cover, classified by the file-missing and append conditions it runs under, has O_CREATE when the file is missing, O_APPEND without O_TRUNC when appending and O_TRUNC otherwise, and the mode header is skipped exactly when appending to an existing file; (RECOMPILE) package main re-resolves and re-compiles the program after Annotate before it is run", ruleCover)
 }
 
 func ruleCover(c *Ctx) {
@@ -24,290 +24,19 @@ func ruleCover(c *Ctx) {
 		return
 	}
 	info := cp.TypesInfo
-	fd := c.funcDecl("internal/cover", "Cover.annotateStmts")
-	if fd == nil {
-		c.undecided("anchor:annotateStmts", token.NoPos, "Cover.annotateStmts not found")
-		return
-	}
 	n := 0
-	param := fd.Type.Params.List[0].Names[0].Name
-
-	// ---------- PRESERVE
-	{
-		found := false
-		for _, st := range fd.Body.List {
-			if is, ok := st.(*ast.IfStmt); ok && is.Init == nil && is.Else == nil {
-				if isLenZero(is.Cond, param) && len(is.Body.List) == 1 {
-					if r, ok := is.Body.List[0].(*ast.ReturnStmt); ok && len(r.Results) == 1 && isIdent(r.Results[0], param) {
-						found = true
-					}
-				}
-				break
-			}
-			if hasCallOrLoop(st) {
-				break
-			}
-		}
-		c.check(found, "preserve:annotateStmts", fd.Pos(),
-			"starts with `if len("+param+") == 0 { return "+param+" }`: nil stays nil and empty stays empty",
-			"annotateStmts does not hand back an empty argument unchanged before doing anything else: a rebuilt result turns {} into a missing action (which prints the record) or nil into an empty body, so output differs with coverage on")
-		n++
-	}
-
-	// ---------- NESTED
-	astPkg := c.pkg("internal/ast")
-	var stmtIface *types.Interface
-	var stmtsT types.Type
-	if astPkg != nil {
-		if o := astPkg.Types.Scope().Lookup("Stmt"); o != nil {
-			stmtIface, _ = o.Type().Underlying().(*types.Interface)
-		}
-		if o := astPkg.Types.Scope().Lookup("Stmts"); o != nil {
-			stmtsT = o.Type()
-		}
-	}
-	if stmtIface == nil || stmtsT == nil {
-		c.undecided("anchor:ast.Stmt", token.NoPos, "ast.Stmt / ast.Stmts not found")
-		return
-	}
-	nested := map[string][]string{} // type name -> Stmts fields
-	for _, name := range astPkg.Types.Scope().Names() {
-		tn, ok := astPkg.Types.Scope().Lookup(name).(*types.TypeName)
-		if !ok {
-			continue
-		}
-		st, ok := tn.Type().Underlying().(*types.Struct)
-		if !ok || !types.Implements(types.NewPointer(tn.Type()), stmtIface) {
-			continue
-		}
-		for i := 0; i < st.NumFields(); i++ {
-			f := st.Field(i)
-			switch {
-			case types.Identical(f.Type(), stmtsT):
-				nested[name] = append(nested[name], f.Name())
-			case isStmtIface(f.Type(), stmtIface):
-				// a single simple statement in the header (for's init and post): part of the compound statement itself
-				c.trivial("nested:"+name+"."+f.Name(), tn.Pos(), "header statement, counted with the %s it belongs to", name)
-			case containsStmt(f.Type(), stmtIface, stmtsT):
-				c.undecided("nested:"+name+"."+f.Name(), tn.Pos(), "statement type %s holds nested statements in field %s of type %s, a shape the rule does not know", name, f.Name(), f.Type())
-			}
-		}
-	}
-	var tsw *ast.TypeSwitchStmt
-	var loop *ast.RangeStmt
-	for _, st := range fd.Body.List {
-		if r, ok := st.(*ast.RangeStmt); ok && isIdent(r.X, param) {
-			loop = r
-		}
-	}
-	if loop != nil {
-		for _, st := range loop.Body.List {
-			if t, ok := st.(*ast.TypeSwitchStmt); ok {
-				tsw = t
-			}
-		}
-	}
-	if loop == nil || tsw == nil {
-		c.undecided("anchor:annotateStmts-loop", fd.Pos(), "annotateStmts is not a range loop over its argument with a type switch on the statement")
-		return
-	}
-	swVar := ""
-	if as, ok := tsw.Assign.(*ast.AssignStmt); ok && len(as.Lhs) == 1 {
-		swVar = as.Lhs[0].(*ast.Ident).Name
-	}
-	clauseOf := map[string]*ast.CaseClause{}
-	for _, cs := range tsw.Body.List {
-		cc := cs.(*ast.CaseClause)
-		for _, e := range cc.List {
-			if t := info.TypeOf(e); t != nil {
-				if nm := named(deref(t)); nm != nil {
-					clauseOf[nm.Obj().Name()] = cc
-				}
-			}
-		}
-	}
-	var names []string
-	for k := range nested {
-		names = append(names, k)
-	}
-	sort.Strings(names)
-	for _, tnm := range names {
-		cc := clauseOf[tnm]
-		for _, f := range nested[tnm] {
-			key := "nested:" + tnm + "." + f
-			n++
-			if cc == nil {
-				c.bad(key, tsw.Pos(), "no clause for *ast.%s in annotateStmts: statements nested in its %s are never counted", tnm, f)
-				continue
-			}
-			if len(cc.List) != 1 {
-				c.undecided(key, cc.Pos(), "clause for *ast.%s lists several types, field access not resolvable", tnm)
-				continue
-			}
-			ok := false
-			escaped := false // an earlier statement of the clause can leave it (break/return/continue/goto)
-			for _, st := range cc.Body {
-				if escaped {
-					break
-				}
-				ast.Inspect(st, func(m ast.Node) bool {
-					switch m.(type) {
-					case *ast.BranchStmt, *ast.ReturnStmt:
-						escaped = true
-					case *ast.FuncLit:
-						return false
-					}
-					return true
-				})
-				as, isAs := st.(*ast.AssignStmt)
-				if !isAs || as.Tok != token.ASSIGN || len(as.Lhs) != 1 || len(as.Rhs) != 1 {
-					continue
-				}
-				if !isSel(as.Lhs[0], swVar, f) {
-					continue
-				}
-				call, isCall := as.Rhs[0].(*ast.CallExpr)
-				if isCall && len(call.Args) == 1 && isSel(call.Args[0], swVar, f) && calleeIs(info, call, fd.Name.Name) {
-					ok = true
-				}
-			}
-			c.check(ok, key, cc.Pos(),
-				"unconditionally replaced by annotateStmts of itself",
-				"the clause for *ast."+tnm+" does not unconditionally assign "+swVar+"."+f+" = annotateStmts("+swVar+"."+f+"): on some shape of the program the statements in that body get no counter of their own (or the counted block is not the one executed)")
-		}
-	}
-
-	// ---------- ONCE
-	{
-		pending := ""
-		appendCount := 0
-		for _, st := range loop.Body.List {
-			if as, ok := st.(*ast.AssignStmt); ok && len(as.Lhs) == 1 && len(as.Rhs) == 1 {
-				if call, ok := as.Rhs[0].(*ast.CallExpr); ok && isIdent(call.Fun, "append") && len(call.Args) == 2 && !call.Ellipsis.IsValid() {
-					if id, ok := call.Args[1].(*ast.Ident); ok && loop.Value != nil && id.Name == loop.Value.(*ast.Ident).Name && isIdent(as.Lhs[0], exprName(call.Args[0])) {
-						pending = exprName(call.Args[0])
-						appendCount++
-					}
-				}
-			}
-		}
-		// count every append of the loop variable anywhere in the loop (nested ones included)
-		total := 0
-		ast.Inspect(loop.Body, func(nd ast.Node) bool {
-			if call, ok := nd.(*ast.CallExpr); ok && isIdent(call.Fun, "append") && len(call.Args) >= 2 {
-				for _, a := range call.Args[1:] {
-					if loop.Value != nil && isIdent(a, loop.Value.(*ast.Ident).Name) {
-						total++
-					}
-				}
-			}
-			return true
-		})
-		c.check(appendCount == 1 && total == 1, "once:append", loop.Pos(),
-			"each statement is appended to the pending block "+pending+" exactly once, unconditionally",
-			"a statement of the input is not appended to the pending block exactly once on every path through the loop: it is dropped from the program or counted in two blocks")
-		n++
-		// flushes
-		flushes, okFlushes := 0, 0
-		var res string
-		checkList := func(list []ast.Stmt, inLoop bool) {
-			for i, st := range list {
-				as, ok := st.(*ast.AssignStmt)
-				if !ok || len(as.Rhs) != 1 {
-					continue
-				}
-				call, ok := as.Rhs[0].(*ast.CallExpr)
-				if !ok || !isIdent(call.Fun, "append") || len(call.Args) != 2 {
-					continue
-				}
-				tc, ok := call.Args[1].(*ast.CallExpr)
-				if !ok || !calleeIs(info, tc, "trackStatement") {
-					continue
-				}
-				flushes++
-				if len(tc.Args) != 1 || !isIdent(tc.Args[0], pending) || !isIdent(as.Lhs[0], exprName(call.Args[0])) {
-					continue
-				}
-				res = exprName(call.Args[0])
-				if i+1 >= len(list) {
-					continue
-				}
-				nx, ok := list[i+1].(*ast.AssignStmt)
-				if !ok || len(nx.Rhs) != 1 || !isIdent(nx.Lhs[0], res) {
-					continue
-				}
-				nc, ok := nx.Rhs[0].(*ast.CallExpr)
-				if !ok || !isIdent(nc.Fun, "append") || len(nc.Args) != 2 || !nc.Ellipsis.IsValid() || !isIdent(nc.Args[0], res) || !isIdent(nc.Args[1], pending) {
-					continue
-				}
-				if inLoop {
-					// must be followed by a reset of the pending block
-					reset := false
-					if i+2 < len(list) {
-						if rs, ok := list[i+2].(*ast.AssignStmt); ok && len(rs.Lhs) == 1 && isIdent(rs.Lhs[0], pending) && len(rs.Rhs) == 1 {
-							switch r := rs.Rhs[0].(type) {
-							case *ast.CompositeLit:
-								reset = len(r.Elts) == 0
-							case *ast.Ident:
-								reset = r.Name == "nil"
-							case *ast.SliceExpr:
-								reset = isIdent(r.X, pending) && r.Low == nil && r.High != nil && exprName(r.High) == "" && isZeroLit(r.High)
-							}
-						}
-					}
-					if !reset {
-						continue
-					}
-				}
-				okFlushes++
-			}
-		}
-		// in-loop flush: inside `if blockEnds { ... }` or directly
-		for _, st := range loop.Body.List {
-			if is, ok := st.(*ast.IfStmt); ok {
-				checkList(is.Body.List, true)
-			}
-		}
-		checkList(loop.Body.List, true)
-		inLoop := flushes
-		// after-loop flush guarded by len(pending) > 0
-		tailOK := false
-		after := false
-		for _, st := range fd.Body.List {
-			if st == ast.Stmt(loop) {
-				after = true
-				continue
-			}
-			if !after {
-				continue
-			}
-			if is, ok := st.(*ast.IfStmt); ok && isLenPositive(is.Cond, pending) {
-				before := okFlushes
-				checkList(is.Body.List, false)
-				tailOK = okFlushes == before+1
-			}
-		}
-		c.check(inLoop >= 1 && flushes == okFlushes && tailOK, "once:flush", loop.Pos(),
-			"every counter is emitted immediately before the block it counts; the pending block is emptied after each flush and flushed after the loop",
-			"a counter statement is not followed directly by exactly the statements it counts, the pending block survives a flush, or the last block is not flushed after the loop: statements are duplicated, lost or counted by the wrong counter")
-		n++
-		// the result returned is res
-		retOK := false
-		if last, ok := fd.Body.List[len(fd.Body.List)-1].(*ast.ReturnStmt); ok && len(last.Results) == 1 && isIdent(last.Results[0], res) && res != "" {
-			retOK = true
-		}
-		c.check(retOK, "once:return", fd.Pos(), "returns the rebuilt list", "annotateStmts does not return the list it built")
-		n++
-	}
-
+	// ---------- PRESERVE, NESTED, ONCE: abstract execution of the annotator (rule_coverseq.go)
+	n += coverSeq(c)
 	// ---------- LISTS, ORDER
 	n += coverLists(c, info)
 	// ---------- COUNTER, POS
-	n += coverTrack(c, info)
+	n += coverTrack2(c, info)
+	_ = coverTrack // superseded by coverTrack2 (function-independent)
 	// ---------- LINES
 	n += coverLines(c)
 	// ---------- FLAGS
-	n += coverFlags(c)
+	n += coverFlags2(c)
+	_ = coverFlags // superseded by coverFlags2 (function-independent)
 	// ---------- RECOMPILE
 	n += coverRecompile(c)
 	c.atLeast("coverage obligations", n, 20)
@@ -570,6 +299,7 @@ func coverLists(c *Ctx, info *types.Info) int {
 	var badUse string
 	var badPos token.Pos
 	uses := 0
+	appenders := map[string]bool{}
 	for _, fd := range c.allFuncDecls("internal/cover") {
 		if fd.Body == nil || fd.Recv == nil || len(fd.Recv.List[0].Names) == 0 {
 			continue
@@ -596,14 +326,16 @@ func coverLists(c *Ctx, info *types.Info) int {
 				if isIdent(p.Fun, "len") {
 					okUse = true
 				}
-				if isIdent(p.Fun, "append") && fd.Name.Name == "trackStatement" && len(p.Args) == 2 && p.Args[0] == ast.Expr(se) {
+				if isIdent(p.Fun, "append") && len(p.Args) == 2 && !p.Ellipsis.IsValid() && p.Args[0] == ast.Expr(se) {
 					okUse = true
+					appenders[fd.Name.Name] = true
 				}
 			case *ast.AssignStmt:
 				// cover.trackedBlocks = append(cover.trackedBlocks, ...) in trackStatement
-				if fd.Name.Name == "trackStatement" && len(p.Lhs) == 1 && p.Lhs[0] == ast.Expr(se) {
-					if call, ok := p.Rhs[0].(*ast.CallExpr); ok && isIdent(call.Fun, "append") {
+				if len(p.Lhs) == 1 && p.Lhs[0] == ast.Expr(se) {
+					if call, ok := p.Rhs[0].(*ast.CallExpr); ok && isIdent(call.Fun, "append") && len(call.Args) == 2 && !call.Ellipsis.IsValid() {
 						okUse = true
+						appenders[fd.Name.Name] = true
 					}
 				}
 			}
@@ -616,9 +348,12 @@ func coverLists(c *Ctx, info *types.Info) int {
 	}
 	_ = cp
 	n++
+	if badUse == "" && len(appenders) != 1 {
+		badUse = "appended to in " + itoa(int64(len(appenders))) + " functions"
+	}
 	c.check(badUse == "" && uses >= 4, "counter:order", badPos,
-		"the tracked-block list is only appended to by trackStatement, measured and ranged over: block i keeps counter element i+1",
-		"the tracked-block list is used other than by append in trackStatement, len and range ("+badUse+"): reordering, indexing or passing it on (for example to sort) breaks the pairing of block i with counter element i+1, so counts are attributed to the wrong blocks")
+		"the tracked-block list is only appended to (one element at a time, in one function), measured and ranged over: block i keeps counter element i+1",
+		"the tracked-block list is used other than by a single-element append in one function, len and range ("+badUse+"): reordering, indexing or passing it on (for example to sort) breaks the pairing of block i with counter element i+1, so counts are attributed to the wrong blocks")
 	return n
 }
 
@@ -907,9 +642,10 @@ func coverLines(c *Ctx) int {
 			}
 			ok = condOK && retOK && incOK && len(r.Body.List) == 2
 		}
-		n++
-		c.check(ok, "lines:fileline", fl.Pos(), "FileLine walks half-open ranges [start, start+lines) from line 1 and returns line-start+1",
-			"FileLine does not map a global line to (file, line-start+1) over half-open ranges starting at 1: blocks at a file boundary are attributed to the wrong file or line")
+		// a comparison against one frozen loop shape: reported as a note, never as a verdict (an equivalent
+		// rewrite of FileLine must not raise an alarm, and the arithmetic of an arbitrary rewrite is out of reach)
+		c.note(ok, "lines:fileline-shape", fl.Pos(), "FileLine walks half-open ranges [start, start+lines) from line 1 and returns line-start+1",
+			"FileLine no longer has the reviewed shape (half-open ranges from line 1, returning line-start+1): re-review the mapping of global lines to (file, line)")
 	}
 	return n
 }
@@ -1167,86 +903,91 @@ func hexs(v int64) string {
 }
 
 func coverRecompile(c *Ctx) int {
-	fd := c.funcDecl("main", "main")
-	if fd == nil {
+	if c.funcDecl("main", "main") == nil {
 		c.undecided("anchor:main", token.NoPos, "main.main not found")
 		return 0
 	}
 	info := c.pkg("main").TypesInfo
 	n := 0
 	var found bool
-	ast.Inspect(fd.Body, func(nd ast.Node) bool {
-		blk, ok := nd.(*ast.BlockStmt)
-		if !ok || found {
-			return true
+	// the statement-level call of Cover.Annotate may sit in main or in a helper of package main
+	for _, fd := range c.allFuncDecls("main") {
+		if fd.Body == nil {
+			continue
 		}
-		idx := -1
-		var annotated string
-		for i, st := range blk.List {
-			if es, ok := st.(*ast.ExprStmt); ok {
-				if call, ok := es.X.(*ast.CallExpr); ok && calleeIs(info, call, "Annotate") && len(call.Args) == 1 {
-					idx = i
-					annotated = exprName(call.Args[0])
+		ast.Inspect(fd.Body, func(nd ast.Node) bool {
+			blk, ok := nd.(*ast.BlockStmt)
+			if !ok || found {
+				return true
+			}
+			idx := -1
+			var annotated string
+			for i, st := range blk.List {
+				if es, ok := st.(*ast.ExprStmt); ok {
+					if call, ok := es.X.(*ast.CallExpr); ok && calleeIs(info, call, "Annotate") && len(call.Args) == 1 {
+						idx = i
+						annotated = exprName(call.Args[0])
+					}
 				}
 			}
-		}
-		if idx < 0 {
-			return true
-		}
-		found = true
-		// after Annotate at the same nesting level: ResolvedProgram and Compiled are both reassigned
-		var resolvedFrom, compiledFrom string
-		var resolvedAt, compiledAt token.Pos
-		defs := map[string]ast.Expr{}
-		for _, st := range blk.List[idx+1:] {
-			as, ok := st.(*ast.AssignStmt)
-			if !ok {
-				continue
+			if idx < 0 {
+				return true
 			}
-			for i, l := range as.Lhs {
-				var rhs ast.Expr
-				if len(as.Rhs) == len(as.Lhs) {
-					rhs = as.Rhs[i]
-				} else if len(as.Rhs) == 1 && i == 0 {
-					rhs = as.Rhs[0]
-				}
-				if rhs == nil {
+			found = true
+			// after Annotate at the same nesting level: ResolvedProgram and Compiled are both reassigned
+			var resolvedFrom, compiledFrom string
+			var resolvedAt, compiledAt token.Pos
+			defs := map[string]ast.Expr{}
+			for _, st := range blk.List[idx+1:] {
+				as, ok := st.(*ast.AssignStmt)
+				if !ok {
 					continue
 				}
-				if id, ok := l.(*ast.Ident); ok {
-					defs[id.Name] = rhs
-				}
-				if s, ok := l.(*ast.SelectorExpr); ok {
-					switch s.Sel.Name {
-					case "ResolvedProgram":
-						r := rhs
-						if st, ok := r.(*ast.StarExpr); ok {
-							r = st.X
-						}
-						if id, ok := r.(*ast.Ident); ok && defs[id.Name] != nil {
-							r = defs[id.Name]
-						}
-						if call, ok := r.(*ast.CallExpr); ok && len(call.Args) >= 1 && isIdent(call.Args[0], annotated) && (calleeIs(info, call, "resolveAnnotated") || calleeIs(info, call, "Resolve")) {
-							resolvedFrom = annotated
-							resolvedAt = as.Pos()
-						}
-					case "Compiled":
-						if call, ok := rhs.(*ast.CallExpr); ok && calleeIs(info, call, "Compile") && len(call.Args) == 1 && strings.HasSuffix(types.ExprString(call.Args[0]), ".ResolvedProgram") {
-							compiledFrom = types.ExprString(call.Args[0])
-							compiledAt = as.Pos()
+				for i, l := range as.Lhs {
+					var rhs ast.Expr
+					if len(as.Rhs) == len(as.Lhs) {
+						rhs = as.Rhs[i]
+					} else if len(as.Rhs) == 1 && i == 0 {
+						rhs = as.Rhs[0]
+					}
+					if rhs == nil {
+						continue
+					}
+					if id, ok := l.(*ast.Ident); ok {
+						defs[id.Name] = rhs
+					}
+					if s, ok := l.(*ast.SelectorExpr); ok {
+						switch s.Sel.Name {
+						case "ResolvedProgram":
+							r := rhs
+							if st, ok := r.(*ast.StarExpr); ok {
+								r = st.X
+							}
+							if id, ok := r.(*ast.Ident); ok && defs[id.Name] != nil {
+								r = defs[id.Name]
+							}
+							if call, ok := r.(*ast.CallExpr); ok && len(call.Args) >= 1 && isIdent(call.Args[0], annotated) && (calleeIs(info, call, "resolveAnnotated") || calleeIs(info, call, "Resolve")) {
+								resolvedFrom = annotated
+								resolvedAt = as.Pos()
+							}
+						case "Compiled":
+							if call, ok := rhs.(*ast.CallExpr); ok && calleeIs(info, call, "Compile") && len(call.Args) == 1 && strings.HasSuffix(types.ExprString(call.Args[0]), ".ResolvedProgram") {
+								compiledFrom = types.ExprString(call.Args[0])
+								compiledAt = as.Pos()
+							}
 						}
 					}
 				}
 			}
-		}
-		n++
-		c.check(resolvedFrom != "" && compiledFrom != "" && resolvedAt < compiledAt, "recompile:main", blk.List[idx].Pos(),
-			"after Annotate the tree is re-resolved into prog.ResolvedProgram and prog.Compiled is rebuilt from it",
-			"main does not, after coverage.Annotate, re-resolve the annotated tree into prog.ResolvedProgram and then rebuild prog.Compiled from it: the counters never run (or run against stale variable indexes)")
-		return false
-	})
+			n++
+			c.check(resolvedFrom != "" && compiledFrom != "" && resolvedAt < compiledAt, "recompile:main", blk.List[idx].Pos(),
+				"after Annotate the tree is re-resolved into prog.ResolvedProgram and prog.Compiled is rebuilt from it",
+				"main does not, after coverage.Annotate, re-resolve the annotated tree into prog.ResolvedProgram and then rebuild prog.Compiled from it: the counters never run (or run against stale variable indexes)")
+			return false
+		})
+	}
 	if !found {
-		c.undecided("anchor:Annotate-call", fd.Pos(), "no statement-level call of Cover.Annotate in main")
+		c.undecided("anchor:Annotate-call", token.NoPos, "no statement-level call of Cover.Annotate in package main")
 	}
 	// the annotated tree is the one inside prog: astProgram := &prog.ResolvedProgram.Program
 	return n
